@@ -363,8 +363,9 @@ Fixpoint compose_all (prev : nat) (bs : list (bond GiRing)) : list (mo GiRing) :
 
 (* graph algorithms / fast path: everything the tie compares, for one (case, algorithm) *)
 Definition tie_table (nsite : nat) (idlab : list elem) (terms : list (list elem * gi)) (const : gi) : list Z :=
-  let tt := snd (intern_terms GiRing nsite idlab [] terms) in
-  enc_tab (terms_to_table GiRing gi_zero tt const (seq 0 nsite)).
+  let it := intern_terms GiRing nsite idlab [] terms in
+  enc_tab (terms_to_table GiRing gi_zero (snd it) const (seq 0 nsite))
+  ++ Z.of_nat (length (fst it)) :: flat_map (fun e => [Z.of_nat (fst e); Z.of_nat (snd e)]) (fst it).
 Definition tie_graph (nsite : nat) (idlab : list elem) (terms : list (list elem * gi)) (const : gi) (cscale : gi)
            (ws : list (wit GiRing)) (impl_bonds : list (bond GiRing)) : list Z :=
   let tt := snd (intern_terms GiRing nsite idlab [] terms) in
